@@ -579,6 +579,11 @@ def setup_ctx(ctx):
                 "across stacks, current and stable in both stacks, product directories inside the stack, outside it, none, shared; "
                 "eups remove through eups.cmd.EupsCmd (-R, -N, --force, -i / --noInteractive with the answers on standard input, too "
                 "few arguments) and through Eups.remove, and histories of several commands and declarations on one Eups object; "
+                "the SAME name, version and flavor declared in both stacks with ONE installation (the very directory, or the "
+                "directory of one declaration inside the other's: directed_twins / gen_twin_spec), removed recursively and not, "
+                "twice on one Eups object (first stack, then second stack), and with -Z <s2>:<s1> / -Z <one stack> (Eups(path=...)) "
+                "so that the declaration of either stack is the one that goes; keys same-product-other-stack-stays/<shared|"
+                "survivor-inside|survivor-holds>/removed-from-stack-<k>/..., whole-command/-Z-<stacks>/...; "
                 "key whole-command/<via>/<flags RCFI>/<outcome>")
     ctx.trusted_base = common.COMMON_TRUSTED + [
         "resolved edges are an input of the model: the harness asks the real code what each table line denotes "
@@ -598,6 +603,11 @@ def setup_ctx(ctx):
         "flavor is Linux64 with the fall-back generic (a command run for the flavor generic sees generic declarations only: not run)",
         "the default product implicitProducts is not declared (every table ends with a silent optional dependency on it, an "
         "unresolved edge of the world); nothing is set up in the environment; no userInfo handed in; not noaction; -t not modelled",
+        "-Z: the command's world is the stacks it names, in that order; declarations and tags of a stack left out are checked to be "
+        "untouched, but a directory such a declaration shares with a removed product is not protected (the command cannot see the "
+        "declaration): counted under observation:directory-of-a-stack-left-out-by-Z-deleted, not a verdict",
+        "where the directory of a removed product holds the directory of a declaration that stays, the property does not say which "
+        "paths must go: the oracle demands the survivor's directory untouched and does not demand the rest deleted",
         "the exact set of deleted paths (removes_exactly*, last clause) is stated under wf_dirs: the installation directories of "
         "the declared products are pairwise non-nested (in particular distinct); the directory of a declaration that stays is "
         "covered without it (frame_directories_multi).  The single-stack directed nested scenarios (a removed product installed "
